@@ -72,8 +72,9 @@ def build(rng, kind=None):
             M[L.key(k)] += 5; M[L.key(k)] -= 5
             desc["steps"].append(["cancel", list(k)])
     if rng.random() < 0.5:
-        M.name = rng.choice(["m", "model_7", "x y"])
-        desc["name"] = M.name
+        # any hashable object may be a name; falsy ones (the name of boolean_var(0) is 0) must survive a round trip too
+        M.name = rng.choice(["m", "model_7", "x y", "m", "x y", 0, "", 0.0, False, (), 1, ("a", 2), -1])
+        desc["name"] = repr(M.name)
     if kind in CONSTRAINED:
         for _ in range(rng.choice([0, 1, 1, 2, 3])):
             rel = rng.choice(RELS)
@@ -95,7 +96,7 @@ def terms_ordered(d, L):
 
 def observe(M, L):
     kind = type(M).__name__
-    o = {"kind": kind, "terms": terms_ordered(M, L), "name": M.name if isinstance(M.name, str) else None,
+    o = {"kind": kind, "terms": terms_ordered(M, L), "name": M.name if isinstance(M.name, str) and not M.name.startswith("repr:") else (None if M.name is None else "repr:" + repr(M.name)),
          "mapping": [], "anc": 0, "cons": [], "ckinds": []}
     if kind in LABELLED:
         o["mapping"] = [[L.ident(k), v] for k, v in M._mapping.items()]
@@ -158,7 +159,7 @@ def info_cases(ctx, N):
             bad = None
             if type(M2) is not type(M): bad = "type differs"
             elif dict(M2) != dict(M): bad = "terms differ"
-            elif M2.name != M.name: bad = "name differs"
+            elif type(M2.name) is not type(M.name) or M2.name != M.name: bad = "name differs: %r, the model's is %r" % (M2.name, M.name)
             elif get_info(M2) != info: bad = "get_info of the copy differs from get_info(M)"
             elif type(M).__name__ in LABELLED and (M2.mapping != M.mapping or M2.reverse_mapping != M.reverse_mapping):
                 bad = "mapping differs"
